@@ -1,8 +1,10 @@
 """Adapter for C25: specific_implementations.read_from_directory and the CLI entry
 main.execute of the tree under test on materialised directory trees.
-JSON stdin -> stdout.  payload = {"roots": [dir, ...], "cli": bool, "keys": [str, ...]}"""
+JSON stdin -> stdout.  payload = {"roots": [{"path": given path, "cwd": dir | null, "aux": dir}, ...], "cli": bool,
+"keys": [str, ...]}"""
 import io
 import json
+import os
 import pathlib
 import sys
 
@@ -21,17 +23,24 @@ def classify(root: str, msg: str):
         return ["key", msg[len(key_prefix):]]
     if msg.startswith(dec_prefix) and dec_mid in msg:
         pth = msg[len(dec_prefix):msg.rindex(dec_mid)]
-        if pth.startswith(root + "/"):
+        if root == ".":
+            pass                     # Path(".") / "a" prints as "a"
+        elif pth.startswith(root + "/"):
             pth = pth[len(root) + 1:]
         return ["decode", pth]
     return ["other", msg]
 
 
 out = []
-for root in payload["roots"]:
+home = os.getcwd()
+for spec in payload["roots"]:
+    if spec["cwd"] is not None:
+        os.chdir(spec["cwd"])
+    root_path = pathlib.Path(spec["path"])
+    root = str(root_path)       # as it is prefixed to the globbed paths
     res = {}
     try:
-        mapping, errors = si.read_from_directory(pathlib.Path(root))
+        mapping, errors = si.read_from_directory(root_path)
         if errors is not None:
             res["err"] = [classify(root, e) for e in errors]
         else:
@@ -39,18 +48,19 @@ for root in payload["roots"]:
     except BaseException as e:  # noqa
         res["exc"] = type(e).__name__
     if payload.get("cli"):
-        model = pathlib.Path(root).parent / (pathlib.Path(root).name + "_model.py")
-        outdir = pathlib.Path(root).parent / (pathlib.Path(root).name + "_out")
+        model = pathlib.Path(spec["aux"]) / "model.py"
+        outdir = pathlib.Path(spec["aux"]) / "out"
         model.write_text("", encoding="utf-8")
         outdir.mkdir(exist_ok=True)
         so, se = io.StringIO(), io.StringIO()
         try:
             params = cg_main.Parameters(model_path=model, target=cg_main.Target.CSHARP,
-                                        snippets_dir=pathlib.Path(root), output_dir=outdir)
+                                        snippets_dir=root_path, output_dir=outdir)
             rc = cg_main.execute(params, stdout=so, stderr=se)
             res["cli"] = {"rc": rc, "stdout": so.getvalue(), "stderr": se.getvalue()}
         except BaseException as e:  # noqa
             res["cli"] = {"exc": type(e).__name__, "detail": str(e)[:300]}
+    os.chdir(home)
     out.append(res)
 keys = [si.IMPLEMENTATION_KEY_RE.fullmatch(k) is not None for k in payload.get("keys", [])]
 json.dump({"trees": out, "keys": keys, "pattern": pattern}, sys.stdout)
